@@ -39,6 +39,9 @@ NamedTD(id) ==
     [] id = "RecTree" -> TStruct(<<Fld("Name", <<78, 97, 109, 101>>, TScalar("string")),
                                    Fld("Kids", <<75, 105, 100, 115>>, TSlice(TNamed("RecTree"))),
                                    FldO("Idx", <<73, 100, 120>>, <<"omitempty">>, TMap(TPtr(TNamed("RecTree"))))>>)
+    \* maps whose key is a named string type (element handled via reflection / typed fast path)
+    [] id = "KMap" -> TMap(TNamed("ZeroT"))
+    [] id = "KMapI" -> TMap(TScalar("int"))
     \* types whose unfolding the user defines (gotype.Unfolders option / Expander), see ExpUser
     [] id = "UStr" -> TStruct(<<Fld("V", <<86>>, TScalar("string"))>>)
     [] id \in {"UI64", "USelf"} -> TStruct(<<Fld("N", <<78>>, TScalar("int64"))>>)
